@@ -73,7 +73,7 @@ class SigmaValidator:
                 vs.add(v)
 
         try:  # convert validator names into classes
-            validator_classes = {validators[v] for v in vs}
+            validator_classes = {validators[v] for v in sorted(vs)}
         except KeyError as e:
             raise SigmaConfigurationError(f"Unknown validator '{ e.args[0] }'")
 
